@@ -13,6 +13,26 @@ pub proof fn lemma_apply_token_ext(text: Seq<u8>, t: PreflateToken)
         }
     }
 }
+/// what an LZ77 copy produces: every copied byte equals the byte `dist` before it
+pub proof fn lemma_lz_copy_content(text: Seq<u8>, dist: int, n: nat)
+    requires 1 <= dist <= text.len(),
+    ensures forall|i: int| 0 <= i < n ==> #[trigger] lz_copy(text, dist, n)[text.len() + i] == lz_copy(text, dist, n)[text.len() + i - dist],
+    decreases n
+{
+    if n > 0 {
+        let m = (n - 1) as nat;
+        lemma_lz_copy_content(text, dist, m);
+        lemma_lz_copy_len(text, dist, m);
+        lemma_lz_copy_len(text, dist, n);
+        let t = lz_copy(text, dist, m);
+        let u = lz_copy(text, dist, n);
+        assert(u == t.push(t[t.len() - dist]));
+        assert forall|i: int| 0 <= i < n implies #[trigger] u[text.len() + i] == u[text.len() + i - dist] by {
+            if i < m { assert(u[text.len() + i] == t[text.len() + i]); assert(u[text.len() + i - dist] == t[text.len() + i - dist]); }
+            else { assert(u[text.len() + i] == t[t.len() - dist]); assert(u[text.len() + i - dist] == t[t.len() - dist]); }
+        }
+    }
+}
 pub proof fn lemma_prefix_trans(a: Seq<u8>, b: Seq<u8>, x: Seq<u8>)
     requires is_prefix(a, b), is_prefix(b, x),
     ensures is_prefix(a, x),
@@ -45,7 +65,17 @@ pub proof fn lemma_toks_in_text(t0: Seq<u8>, ts: Seq<PreflateToken>, x: Seq<u8>)
                 assert(x.subrange(0, apply_token(tp, t).len() as int)[p] == x[p]);
                 assert(apply_token(tp, t)[p] == l);
             }
-            PreflateToken::Reference(r) => { }
+            PreflateToken::Reference(r) => {
+                let n = ref_len(r) as nat; let d = r.dist as int;
+                lemma_lz_copy_len(tp, d, n);
+                lemma_lz_copy_content(tp, d, n);
+                let a = apply_token(tp, t);
+                assert forall|i: int| 0 <= i < n implies #[trigger] x[p + i] == x[p + i - d] by {
+                    assert(x.subrange(0, a.len() as int)[p + i] == x[p + i]);
+                    assert(x.subrange(0, a.len() as int)[p + i - d] == x[p + i - d]);
+                    assert(a[p + i] == a[p + i - d]);
+                }
+            }
         }
     }
 }
